@@ -10,3 +10,5 @@ def run(ctx):
     contexts(ctx)        # 'the current input with its parents': every option position sees the same context derivations
     regex_cache(ctx)
     function_names(ctx)
+    from ..conform import conformance
+    conformance(ctx, ['binding'])      # the references the obligations are stated against, compared with jawk::go on concrete runs (validates the oracles; never decides)
